@@ -191,6 +191,10 @@ func (s *Stream) Read(p []byte) (int, error) {
 		if !s.firstDone && s.FirstChunk > 0 && n > s.FirstChunk {
 			n = s.FirstChunk
 		}
+		// no read crosses the offset of a pending transient error: whoever reads that far meets it
+		if s.TransientErrAt > s.Pos && !s.TransientDelivered && s.Pos+n > s.TransientErrAt {
+			n = s.TransientErrAt - s.Pos
+		}
 	})
 	if op == nil {
 		// context ended while parked
